@@ -245,6 +245,38 @@ theorem mv_present_of_posdef (mean : List ℝ) (covariance : Matrix ℝ) (source
   simp only [Bool.false_eq_true, if_false, hL]
   rw [Nat.min_eq_right hlen]
 
+/-- **A present multivariate draw is `μ + L·z` for a genuine square root `L` of the covariance**
+    (real, symmetric covariance): the model found a lower-triangular `L` with positive diagonal and
+    `L·Lᵀ = covariance` (C08), and entry `(s, i)` of the result is `μ_i + Σ_k L[i,k]·z_s[k]` with
+    `z_s` the standard-normal Box–Muller draws of the `s`-th source chunk — so the rows have mean
+    `μ` and covariance `L·I·Lᵀ = covariance` whenever the `z` are standard normal. -/
+theorem mv_draw_uses_cholesky_factor (mean : List ℝ) (covariance : Matrix ℝ) (source : List ℝ)
+    (samples : ℕ) (m : Matrix ℝ) (hm : mean.length = covariance.rows)
+    (hsym : (toMat covariance.rows covariance.rows covariance).transpose
+      = toMat covariance.rows covariance.rows covariance)
+    (h : (drawTensorSamples mean covariance source samples false).1 = .ok (some m)) :
+    ∃ L, cholesky covariance = some L ∧
+      (∀ i j : Fin covariance.rows, i < j → toMat covariance.rows covariance.rows L i j = 0) ∧
+      (∀ i : Fin covariance.rows, 0 < toMat covariance.rows covariance.rows L i i) ∧
+      toMat covariance.rows covariance.rows L * (toMat covariance.rows covariance.rows L).transpose
+        = toMat covariance.rows covariance.rows covariance ∧
+      m.rows = samples ∧ m.columns = mean.length ∧
+      ∀ s i, s < samples → i < mean.length →
+        get m s i = mean.getD i 0 + (List.range mean.length).foldl
+          (fun acc k => acc + get L i k * (rowNormals source mean.length s).getD k 0) 0 := by
+  rw [mv_draw_eq _ _ _ _ _ hm] at h
+  simp only [] at h
+  split at h
+  · cases h
+  · simp only [Outcome.ok.injEq] at h
+    cases hc : cholesky covariance with
+    | none => simp [mvSpec, hc] at h
+    | some L =>
+      obtain ⟨_, _, hlow, hpos, _, hfull⟩ := C08.cholesky_sound covariance L hc
+      obtain ⟨hr, hcol, _⟩ := mv_shape _ _ _ _ _ _ h
+      exact ⟨L, rfl, hlow, hpos, hfull hsym, hr, hcol,
+        fun s i hs hi => mv_entry mean covariance L source samples m hc h s i hs hi⟩
+
 /-- **Matrix and tensor variants agree**: `MultivariateGaussianTensor::draw` with any two
     *distinct* dimension names computes what `MultivariateGaussian::draw` (whose names are the
     constants `"samples"`, `"features"`) computes. -/
